@@ -124,25 +124,53 @@ func runRequest(rc *core.RunCtx) {
 			}
 		})
 	}
+	// a requester is a client task using Engine.Request, or an actor using
+	// Context.Request from inside its Receive; such actors are spawned
+	// WithContext(the application's own context), which the application may
+	// cancel at any time - that is no business of the requests
+	body := func(r int, request func(*actor.PID, any, time.Duration) *actor.Response) {
+		for _, q := range scripts[r] {
+			env.ev("request", fmt.Sprintf("q%d", r), q.plan.target, q.msg, nil)
+			resp := request(actor.NewPID("local", q.plan.target), q.msg, q.plan.timeout)
+			q.respPID = resp.PID()
+			if q.plan.stall > 0 {
+				simrt.Sleep(q.plan.stall)
+			}
+			q.callAt = simrt.Now()
+			q.callSeq = env.ev("result-call", fmt.Sprintf("q%d", r), "", q.msg, nil)
+			v, err := resp.Result()
+			q.retAt = simrt.Now()
+			q.val, q.err, q.returned = v, err, true
+			q.regAfter = env.E.Registry.GetPID(kindOf(q.respPID.ID), idOf(q.respPID.ID)) != nil
+			q.retSeq = env.ev("result", fmt.Sprintf("q%d", r), fmt.Sprintf("%v/%v", v, err), q.msg, nil)
+		}
+		finished++
+	}
+	type startReq struct{}
+	inActor := 0
 	for r := range scripts {
 		r := r
-		simrt.Go(fmt.Sprintf("requester%d", r), func() {
-			for _, q := range scripts[r] {
-				env.ev("request", fmt.Sprintf("q%d", r), q.plan.target, q.msg, nil)
-				resp := env.E.Request(actor.NewPID("local", q.plan.target), q.msg, q.plan.timeout)
-				q.respPID = resp.PID()
-				if q.plan.stall > 0 {
-					simrt.Sleep(q.plan.stall)
+		if g.Bool(0.3) {
+			inActor++
+			rc.Scen("requester q%d is an actor (Context.Request), spawned WithContext", r)
+			pid := env.E.SpawnFunc(func(c *actor.Context) {
+				if _, ok := c.Message().(startReq); ok {
+					body(r, c.Request)
 				}
-				q.callAt = simrt.Now()
-				q.callSeq = env.ev("result-call", fmt.Sprintf("q%d", r), "", q.msg, nil)
-				v, err := resp.Result()
-				q.retAt = simrt.Now()
-				q.val, q.err, q.returned = v, err, true
-				q.regAfter = env.E.Registry.GetPID(kindOf(q.respPID.ID), idOf(q.respPID.ID)) != nil
-				q.retSeq = env.ev("result", fmt.Sprintf("q%d", r), fmt.Sprintf("%v/%v", v, err), q.msg, nil)
-			}
-			finished++
+			}, "requester", actor.WithID(fmt.Sprintf("q%d", r)), actor.WithContext(env.UserContext()))
+			env.E.Send(pid, startReq{})
+			continue
+		}
+		simrt.Go(fmt.Sprintf("requester%d", r), func() { body(r, env.E.Request) })
+	}
+	if inActor > 0 && g.Bool(0.6) {
+		at := time.Duration(g.IntN(4)) * time.Millisecond
+		rc.Scen("the application cancels its context after %v", at)
+		simrt.Go("app-cancels-its-context", func() {
+			simrt.Sleep(at)
+			simrt.Fault("user-context-cancelled")
+			env.UserContext()
+			env.CancelUserContext()
 		})
 	}
 	simrt.WaitQuiet(time.Hour)
